@@ -274,18 +274,35 @@ Proof.
   rewrite parse_dump_print; [reflexivity|]. pose proof (dump_tokens_length (dump_spans w')). lia.
 Qed.
 
-Theorem model_meets_spec_wire : forall l : list tok, parse_case l <> None -> run_spec l (run_model l) = [].
+(* the assumption on the default-generator oracle, for a case line (nothing for a scripted generator) *)
+Definition case_oracle_fresh (l : list tok) : Prop :=
+  match parse_case l with Some (cf, n, ops) => oracle_fresh cf (world0 n) ops | None => True end.
+
+Lemma parsed_cfg : forall l cf n ops, parse_case l = Some (cf, n, ops) ->
+  exists e g cs, cf = cfg_of_gen e g cs.
 Proof.
-  intros l H. unfold run_spec, run_model. destruct (parse_case l) as [[[cf n] ops]|] eqn:P; [|contradiction].
+  intros l cf n ops P. unfold parse_case in P. destruct (split_toks "|" l) as [|hdr [|body [|x y]]]; try discriminate.
+  unfold parse_cfg in P. destruct (parse_cfg_cs hdr) as [[[[e r] n0] cs]|]; [|discriminate].
+  destruct body.
+  - inversion P; subst. eauto.
+  - destruct (parse_all (parse_top n0) (split_toks ";" (t :: body))); [|discriminate]. cbn in P. inversion P; subst. eauto.
+Qed.
+
+Theorem model_meets_spec_wire : forall l : list tok, parse_case l <> None -> case_oracle_fresh l ->
+  run_spec l (run_model l) = [].
+Proof.
+  intros l H F. unfold run_spec, run_model, case_oracle_fresh in *. destruct (parse_case l) as [[[cf n] ops]|] eqn:P; [|contradiction].
   rewrite observation_roundtrip.
-  (* the configuration of a parsed case is one of cfg_of ... *)
-  assert (OK : samp_ok cf).
-  { unfold parse_case in P. destruct (split_toks "|" l) as [|hdr [|body [|x y]]]; try discriminate.
-    unfold parse_cfg in P. destruct (parse_cfg_cs hdr) as [[[[e r] n0] cs]|]; [|discriminate].
-    destruct body; [inversion P; subst; apply cfg_of_ok|].
-    destruct (parse_all (parse_top n0) (split_toks ";" (t :: body))); [|discriminate].
-    cbn in P. inversion P; subst. apply cfg_of_ok. }
-  apply model_meets_spec_any_sampler. exact OK.
+  destruct (parsed_cfg l cf n ops P) as (e & g & cs & E).
+  apply model_meets_spec_oracles; [|exact F]. subst cf. destruct g; [apply cfg_of_ok | apply cfg_of_default_ok].
+Qed.
+
+(* with a scripted generator the assumption is empty *)
+Corollary model_meets_spec_wire_scripted : forall l cf n ops, parse_case l = Some (cf, n, ops) -> cf_defgen cf = false ->
+  run_spec l (run_model l) = [].
+Proof.
+  intros l cf n ops P D. apply model_meets_spec_wire; [congruence|]. unfold case_oracle_fresh. rewrite P.
+  apply oracle_fresh_scripted. exact D.
 Qed.
 
 Example wire_nonvacuous :
